@@ -331,6 +331,13 @@ def applyEvict (s : State) (e : Evicted) : State :=
     else s
   { s1 with stats := { s1.stats with weightRemoved := (s1.stats.weightRemoved + w.toNat) % u64Mod } }
 
+/-- The TTL ticker's evict hook (cached.rs `ttl_ticker`, store/mod.rs `delete_if_key_id_matches`): as `applyEvict`, but the
+    key leaves the store only if the stored value still carries the evicted key id (the key may have been deleted and
+    put again, under a new id, since the ticker took the id out of the weight ledger). -/
+def applyEvictId (s : State) (e : Evicted) : State :=
+  if (s.store.get? e.2.1).map (·.id) == some e.1 then applyEvict s e
+  else { s with stats := { s.stats with weightRemoved := (s.stats.weightRemoved + e.2.2.toNat) % u64Mod } }
+
 /-- `CacheWeight::update_weight_stats` (cache_weight.rs:267-275), `fetch_add` wrapping in `u64`. -/
 def updateWeightStats (st : Stats) (newW oldW : Int) : Stats :=
   if newW > oldW then { st with weightAdded := (st.weightAdded + (newW - oldW).toNat) % u64Mod }
@@ -420,7 +427,7 @@ def workerStep (s : State) (o : Oracle) : Except String (State × Out × Oracle)
 def sweepEvict (s : State) (id : Nat) : State × Option Evicted :=
   let (adm, ev?) := s.adm.delete id
   match ev? with
-  | some e => (applyEvict { s with adm := adm } e, some e)
+  | some e => (applyEvictId { s with adm := adm } e, some e)
   | none => (s, none)
 
 def sweepEntries (s : State) : List ((Nat × Nat) × Nat) → List Evicted → State × List Evicted
